@@ -17,7 +17,8 @@ import (
 // is given only, and a call must leave the caller's options as they are for the calls that follow.
 //
 // Scripts with `share` set are run in the second style: every write call of the run takes a view
-// `arena[:n]` of one backing array of capacity arenaCap (read calls likewise, from their own array).
+// `arena[off:off+n]` of one backing array of capacity arenaCap (read calls likewise, from their own array;
+// off is the call's Off, 0 unless the script says otherwise).
 // The caller writes its list down once (prepare); after that position i of the array is rewritten by
 // the "caller" only when the option token at position i of
 // the current call differs from the one materialised there - exactly what a caller that re-uses a
@@ -61,18 +62,18 @@ func (r *real) prepare(ops []Op) {
 	r.wArr, r.wTok = make([]resource.WriteOption, arenaCap), make([]string, arenaCap)
 	r.rArr, r.rTok = make([]resource.ReadOption, arenaCap), make([]string, arenaCap)
 	for _, o := range ops {
-		if len(o.Opts) > arenaCap {
+		if o.Off+len(o.Opts) > arenaCap {
 			continue
 		}
 		if o.isWrite() {
 			for i, t := range o.Opts {
-				if r.wArr[i] == nil {
+				if i += o.Off; r.wArr[i] == nil {
 					r.wArr[i], r.wTok[i] = writeOption(t, func() *callbacks { return r.cur }), t
 				}
 			}
 			continue
 		}
-		n := 0
+		n := o.Off
 		for _, t := range o.Opts {
 			ro, ok := readOption(t)
 			if !ok {
@@ -89,7 +90,7 @@ func (r *real) prepare(ops []Op) {
 // viewW returns the option slice for a write call.
 func (r *real) viewW(o Op, cb *callbacks) []resource.WriteOption {
 	r.cur, r.note = cb, ""
-	if !r.share || len(o.Opts) > arenaCap {
+	if !r.share || o.Off+len(o.Opts) > arenaCap {
 		r.wSnap = nil
 		return writeOptions(o, cb)
 	}
@@ -98,12 +99,12 @@ func (r *real) viewW(o Op, cb *callbacks) []resource.WriteOption {
 		r.wTok = make([]string, arenaCap)
 	}
 	for i, t := range o.Opts {
-		if r.wArr[i] == nil || r.wTok[i] != t {
+		if i += o.Off; r.wArr[i] == nil || r.wTok[i] != t {
 			r.wArr[i], r.wTok[i] = writeOption(t, func() *callbacks { return r.cur }), t
 		}
 	}
 	r.wSnap = append(r.wSnap[:0], r.wArr...)
-	return r.wArr[:len(o.Opts)] // cap == arenaCap: the spare capacity holds the caller's other options
+	return r.wArr[o.Off : o.Off+len(o.Opts)] // cap == arenaCap-Off: the spare capacity holds the caller's other options
 }
 
 // checkW: the call must not have written to the caller's option array.
@@ -113,7 +114,7 @@ func (r *real) checkW(o Op) {
 	}
 	for i := range r.wArr {
 		if !sameWriteOption(r.wArr[i], r.wSnap[i]) {
-			r.note = fmt.Sprintf("position %d of the caller's option array (the call was given positions 0..%d) holds another option after the call", i, len(o.Opts)-1)
+			r.note = fmt.Sprintf("position %d of the caller's option array (the call was given positions %d..%d) holds another option after the call", i, o.Off, o.Off+len(o.Opts)-1)
 			return
 		}
 	}
@@ -121,7 +122,7 @@ func (r *real) checkW(o Op) {
 
 func (r *real) viewR(o Op) []resource.ReadOption {
 	r.note = ""
-	if !r.share || len(o.Opts) > arenaCap {
+	if !r.share || o.Off+len(o.Opts) > arenaCap {
 		r.rSnap = nil
 		return readOptions(o)
 	}
@@ -129,7 +130,7 @@ func (r *real) viewR(o Op) []resource.ReadOption {
 		r.rArr = make([]resource.ReadOption, arenaCap)
 		r.rTok = make([]string, arenaCap)
 	}
-	n := 0
+	n := o.Off
 	for _, t := range o.Opts {
 		if r.rArr[n] == nil || r.rTok[n] != t {
 			ro, ok := readOption(t)
@@ -141,7 +142,7 @@ func (r *real) viewR(o Op) []resource.ReadOption {
 		n++
 	}
 	r.rSnap = append(r.rSnap[:0], r.rArr...)
-	return r.rArr[:n]
+	return r.rArr[o.Off:n]
 }
 
 func (r *real) checkR(o Op) {
